@@ -17,6 +17,7 @@
 package stream
 
 import (
+	"github.com/rulego/streamsql/utils/verifhook"
 	"sync/atomic"
 	"time"
 )
@@ -164,6 +165,7 @@ func (s *Stream) submitSinkTask(sink func([]map[string]any), results []map[strin
 		currentSink(results)
 	}
 
+	verifhook.Yield("sink.submit")
 	// Non-blocking task submission
 	// Note: Since we use a worker pool, tasks may be executed out of order
 	select {
